@@ -17,8 +17,10 @@ import CaddyModel.C06.GlobLemmas
 import CaddyModel.C06.SiteLemmas
 import CaddyModel.C06.ProvLemmas
 import CaddyModel.C06.ElemLemmas
+import CaddyModel.C06.SrvLemmas
 import CaddyModel.C06.Witness
 import CaddyModel.Gen.Consts
+import CaddyModel.Gen.HostMatcherWrites
 
 namespace CaddyModel.C06
 
@@ -196,6 +198,78 @@ theorem provision_fails_iff (idna : Bytes → Option Bytes) (thr : Nat) (l : Lis
     by_cases hl : as.length > thr
     · rw [if_pos hl]; exact ⟨_, rfl⟩
     · rw [if_neg hl]; exact ⟨_, rfl⟩
+
+/-! ## host matching through the provisioned server (Provision → automatic HTTPS phase 1 → request) -/
+
+/-- **automatic HTTPS phase 1 is read-only on host matchers**: the slice the request-time
+    matcher sees is the slice `MatchHost.Provision` left (sorted, partitioned, lower-cased) -/
+theorem autohttps_phase1_leaves_host_matcher_alone (emptyGlobal : Bytes → Bool) (m m' : List Bytes)
+    (h : autohttpsHostView emptyGlobal m = some m') : m' = m :=
+  autohttpsHostView_read_only emptyGlobal m m' h
+
+/-- the provisioned server, for every list size and every threshold: duplicate check, phase-1
+    check, then "some CONFIGURED entry, expanded by the request's replacer, matches the canonical host" -/
+theorem srvHostCase_eq (thr : Nat) (l : List Bytes) (look : Bytes → Bytes) (emptyGlobal : Bytes → Bool)
+    (rhost : Bytes) :
+    srvHostCase thr l look emptyGlobal rhost =
+      if hasDup (l.map lower) then .dup
+      else if l.any (fun e => (keysOf e.length e).any emptyGlobal) then .phase1Err
+      else .res (l.any (fun e => entryMatches (canonHost rhost) (expand look e.length e))) := by
+  have hcanon : (fun e => entryMatches (canonHost rhost) (expand look e.length e)) =
+      (fun e => entryMatches (stripPort rhost) (expand look e.length e)) := by
+    funext e; unfold canonHost; exact entryMatches_lower _ _
+  rw [hcanon]
+  unfold srvHostCase provisionHost
+  by_cases hd : hasDup (l.map lower) = true
+  · simp [hd]
+  · have hd' : hasDup (l.map lower) = false := by simpa using hd
+    simp only [hd', Bool.false_eq_true, if_false]
+    by_cases hl : l.length > thr
+    · simp only [hl, if_true]
+      unfold autohttpsHostView
+      rw [phase1_fails_perm emptyGlobal l _ (sortHosts_perm _)]
+      by_cases hp : l.any (fun e => (keysOf e.length e).any emptyGlobal) = true
+      · simp [hp]
+      · have hp' : l.any (fun e => (keysOf e.length e).any emptyGlobal) = false := by simpa using hp
+        simp only [hp', Bool.false_eq_true, if_false]
+        rw [matchHostX_sorted _ (fun e he => expand_exact look e he) thr l _ rhost hl
+          (sortHosts_perm _) (sortHosts_sorted _)]
+    · simp only [hl, if_false]
+      unfold autohttpsHostView
+      by_cases hp : l.any (fun e => (keysOf e.length e).any emptyGlobal) = true
+      · simp [hp]
+      · have hp' : l.any (fun e => (keysOf e.length e).any emptyGlobal) = false := by simpa using hp
+        simp only [hp', Bool.false_eq_true, if_false]
+        rw [matchHostX_small _ thr l rhost hl]
+
+/-- **match result of the provisioned server = match result of the configured list, for every
+    size**: Provision's large-list layout, phase 1 and the per-request expansion of placeholder
+    entries together compute the plain scan of the list as configured -/
+theorem srvHost_matches_configured_list (thr : Nat) (l : List Bytes) (look : Bytes → Bytes)
+    (emptyGlobal : Bytes → Bool) (rhost : Bytes) (hnd : hasDup (l.map lower) = false)
+    (hok : l.any (fun e => (keysOf e.length e).any emptyGlobal) = false) :
+    srvHostCase thr l look emptyGlobal rhost =
+      .res (hostLoopX (fun e => expand look e.length e) false (canonHost rhost) l) := by
+  rw [srvHostCase_eq, hnd, hok, hostLoopX_small]
+  rfl
+
+/-- the provisioned server's answer never depends on where the large-list threshold is … -/
+theorem srvHost_size_invariant (thr thr' : Nat) (l : List Bytes) (look : Bytes → Bytes)
+    (emptyGlobal : Bytes → Bool) (rhost : Bytes) :
+    srvHostCase thr l look emptyGlobal rhost = srvHostCase thr' l look emptyGlobal rhost := by
+  rw [srvHostCase_eq, srvHostCase_eq]
+
+/-- … nor on the spelling of the request host (letter case, port) -/
+theorem srvHost_depends_only_on_canonical_host (thr : Nat) (l : List Bytes) (look : Bytes → Bytes)
+    (emptyGlobal : Bytes → Bool) (h h' : Bytes) (e : canonHost h = canonHost h') :
+    srvHostCase thr l look emptyGlobal h = srvHostCase thr l look emptyGlobal h' := by
+  rw [srvHostCase_eq, srvHostCase_eq, e]
+
+/-- … nor on the order of the configured entries -/
+theorem srvHost_perm_invariant (thr : Nat) (l l' : List Bytes) (look : Bytes → Bytes)
+    (emptyGlobal : Bytes → Bool) (rhost : Bytes) (hp : l.Perm l') :
+    srvHostCase thr l look emptyGlobal rhost = srvHostCase thr l' look emptyGlobal rhost := by
+  rw [srvHostCase_eq, srvHostCase_eq, hasDup_perm (hp.map lower), hp.any_eq, hp.any_eq]
 
 /-! ## path.Clean / cleanPath -/
 
@@ -631,6 +705,16 @@ example : globMatch [47, 97, 47, 42, 47, 91, 99, 45, 101, 93, 63] [47, 97, 47, 1
 example : Sorted (sortHosts ([[69, 120, 97, 109, 112, 108, 101, 46, 99, 111, 109], [98, 46, 116, 101, 115, 116], [42, 46, 99, 46, 116, 101, 115, 116]].map lowerExact)) := sortHosts_sorted _
 example : isRooted [47, 120, 47, 46, 46, 47, 65, 68, 77, 73, 78, 47, 112, 97, 110, 101, 108] = true := by decide
 
+/-- **regenerated tie: outside matchers.go, package caddyhttp only reads provisioned host matchers.**
+    `tools/extract` lists, on every run, every statement of the non-test files of modules/caddyhttp
+    (matchers.go excepted) that stores into a value obtained by a `.(*MatchHost)` type assertion —
+    an element (`(*hm)[i] = …`) or the whole slice — and the loops that read one. There is such a
+    loop (automatic HTTPS phase 1) and there is no such store: this is the source-level side of
+    `autohttpsHostView` being the identity on the slice (`autohttps_phase1_leaves_host_matcher_alone`). -/
+theorem host_matcher_read_only_matches_source :
+    Gen.hostMatcherWrites = [] ∧
+    Gen.hostMatcherRanges = ["autohttps.go:automaticHTTPSPhase1: range *hm"] := by decide
+
 /-- **regenerated tie.** The large-list threshold the driver instantiates (`Driver.largeThreshold = 100`)
     is the constant `tools/extract` reads out of `MatchHost.large` on every run. (The host theorems above
     hold for EVERY threshold, so a changed constant cannot break the property — it would only make the
@@ -671,5 +755,15 @@ example : parseChunk [47, 102, 63, 91, 97, 45, 99, 120, 93, 91, 94, 48, 45, 57, 
 example : scanLen false [47, 102, 63, 91, 97, 45, 99, 120, 93, 91, 94, 48, 45, 57, 93, 92, 42] = [47, 102, 63, 91, 97, 45, 99, 120, 93, 91, 94, 48, 45, 57, 93, 92, 42].length ∧ [47, 102, 63, 91, 97, 45, 99, 120, 93, 91, 94, 48, 45, 57, 93, 92, 42].head? ≠ some cStar := by decide
 example : globMatch [47, 102, 63, 91, 97, 45, 99, 120, 93, 91, 94, 48, 45, 57, 93, 92, 42] [47, 102, 111, 98, 122, 42] = .yes ∧ globMatch [47, 102, 63, 91, 97, 45, 99, 120, 93, 91, 94, 48, 45, 57, 93, 92, 42] [47, 102, 47, 98, 122, 42] = .no := by decide
 example : parseChunk [47, 97, 91, 98, 45].length [47, 97, 91, 98, 45] = .bad := by decide
+
+/-- `{env.C06_A}` = `Tenant.example.test`, `{http.request.header.X-T}` = `acme` -/
+def exLook : Bytes → Bytes := fun k =>
+  if k = [101, 110, 118, 46, 67, 48, 54, 95, 65] then [84, 101, 110, 97, 110, 116, 46, 101, 120, 97, 109, 112, 108, 101, 46, 116, 101, 115, 116] else if k = [104, 116, 116, 112, 46, 114, 101, 113, 117, 101, 115, 116, 46, 104, 101, 97, 100, 101, 114, 46, 88, 45, 84] then [97, 99, 109, 101] else []
+-- three entries over threshold 2 (large path): env placeholder, request placeholder, exact name
+example : srvHostCase 2 [[123, 101, 110, 118, 46, 67, 48, 54, 95, 65, 125], [123, 104, 116, 116, 112, 46, 114, 101, 113, 117, 101, 115, 116, 46, 104, 101, 97, 100, 101, 114, 46, 88, 45, 84, 125, 46, 100, 121, 110, 46, 116, 101, 115, 116], [72, 49, 46, 101, 120, 97, 109, 112, 108, 101, 46, 116, 101, 115, 116]] exLook (fun _ => false) [84, 69, 78, 65, 78, 84, 46, 101, 120, 97, 109, 112, 108, 101, 46, 116, 101, 115, 116, 58, 56, 52, 52, 51] = .res true := by decide
+example : srvHostCase 2 [[123, 101, 110, 118, 46, 67, 48, 54, 95, 65, 125], [123, 104, 116, 116, 112, 46, 114, 101, 113, 117, 101, 115, 116, 46, 104, 101, 97, 100, 101, 114, 46, 88, 45, 84, 125, 46, 100, 121, 110, 46, 116, 101, 115, 116], [72, 49, 46, 101, 120, 97, 109, 112, 108, 101, 46, 116, 101, 115, 116]] exLook (fun _ => false) [65, 99, 109, 101, 46, 100, 121, 110, 46, 116, 101, 115, 116] = .res true := by decide
+example : srvHostCase 100 [[123, 101, 110, 118, 46, 67, 48, 54, 95, 65, 125], [123, 104, 116, 116, 112, 46, 114, 101, 113, 117, 101, 115, 116, 46, 104, 101, 97, 100, 101, 114, 46, 88, 45, 84, 125, 46, 100, 121, 110, 46, 116, 101, 115, 116], [72, 49, 46, 101, 120, 97, 109, 112, 108, 101, 46, 116, 101, 115, 116]] exLook (fun _ => false) [84, 69, 78, 65, 78, 84, 46, 101, 120, 97, 109, 112, 108, 101, 46, 116, 101, 115, 116, 58, 56, 52, 52, 51] = .res true := by decide
+example : srvHostCase 2 [[123, 101, 110, 118, 46, 67, 48, 54, 95, 65, 125], [123, 104, 116, 116, 112, 46, 114, 101, 113, 117, 101, 115, 116, 46, 104, 101, 97, 100, 101, 114, 46, 88, 45, 84, 125, 46, 100, 121, 110, 46, 116, 101, 115, 116], [72, 49, 46, 101, 120, 97, 109, 112, 108, 101, 46, 116, 101, 115, 116]] exLook (fun k => k == [101, 110, 118, 46, 67, 48, 54, 95, 65]) [84, 69, 78, 65, 78, 84, 46, 101, 120, 97, 109, 112, 108, 101, 46, 116, 101, 115, 116, 58, 56, 52, 52, 51] = .phase1Err := by decide
+example : keysOf [123, 104, 116, 116, 112, 46, 114, 101, 113, 117, 101, 115, 116, 46, 104, 101, 97, 100, 101, 114, 46, 88, 45, 84, 125, 46, 100, 121, 110, 46, 116, 101, 115, 116].length [123, 104, 116, 116, 112, 46, 114, 101, 113, 117, 101, 115, 116, 46, 104, 101, 97, 100, 101, 114, 46, 88, 45, 84, 125, 46, 100, 121, 110, 46, 116, 101, 115, 116] = [[104, 116, 116, 112, 46, 114, 101, 113, 117, 101, 115, 116, 46, 104, 101, 97, 100, 101, 114, 46, 88, 45, 84]] ∧ expand exLook [123, 104, 116, 116, 112, 46, 114, 101, 113, 117, 101, 115, 116, 46, 104, 101, 97, 100, 101, 114, 46, 88, 45, 84, 125, 46, 100, 121, 110, 46, 116, 101, 115, 116].length [123, 104, 116, 116, 112, 46, 114, 101, 113, 117, 101, 115, 116, 46, 104, 101, 97, 100, 101, 114, 46, 88, 45, 84, 125, 46, 100, 121, 110, 46, 116, 101, 115, 116] = [97, 99, 109, 101, 46, 100, 121, 110, 46, 116, 101, 115, 116] := by decide
 
 end CaddyModel.C06
